@@ -61,6 +61,9 @@ def check_text(rec: Rec, text: str, origin: str, full=False):
 
 
 def replay(rec, case):
+    if case["input"].get("origin") == "configurations":
+        from ._configs import replay as _r
+        return _r(rec, case)
     from .. import dims
     from ..lib import IBAN
     t = case["input"]["text"]
@@ -169,12 +172,25 @@ def shard_country(arg):
                 got = check_text(rec, v, f"argform:{form}", full=True)
                 rec.case(f"argform-{form}", (t, form), {"text": t, "form": form} if bi == 0 else None)
     rec.exhaustive.append("whitespace in every gap / 300-70000 padding characters, token dictionary x 4 separators, per base")
+    # IBANs whose bank / branch / account fields hold the literals of the source (vlib/dims.py: literal_dictionary)
+    from ._shared import literal_bbans
+    for lits_, b in literal_bbans(cc, rng):
+        t = g.iban_of(cc, b)
+        if check_text(rec, t, "source-literals", full=False) is not True:
+            raise HarnessError(f"oracle rejects its own construction {t}")
+        rec.case("source-literals", t)
     # variable whitespace/lower-case rendering of an accepted text must be accepted (normalisation first)
     for base in bases[:2]:
         t = " ".join(base[i:i + 4] for i in range(0, len(base), 4)).lower()
         if check_text(rec, t, "format", full=True) is not True:
             raise HarnessError("oracle rejects a formatted valid IBAN")
         rec.case("valid-formatted-lower", t, t)
+        printed = t.upper()
+        for w in gens.WHITESPACE:
+            for v in (printed + w, w + printed, printed + w + w, t + w, base + w, w + base):
+                if check_text(rec, v, "format-affix", full=True) is not True:
+                    raise HarnessError("oracle rejects a printed valid IBAN with surrounding whitespace")
+                rec.case("valid-formatted-affix", v)
     return rec
 
 
@@ -217,6 +233,21 @@ def shard_prefix(arg):
             rec.case("prefix-accepted" if want else "prefix-rejected", t if (want or not t.isascii()) else None,
                      t)
     rec.exhaustive.append("every two-character prefix over A-Z a-z 0-9 and 12 non-ASCII characters")
+    return rec
+
+
+def shard_codepoints(arg):
+    """(f) every code point of the code space at one BBAN position of a valid IBAN."""
+    lo, hi, seed = arg
+    from ._shared import codepoint_texts
+    rec = Rec()
+    for ch, equiv, t in codepoint_texts(lo, hi, seed):
+        want = check_text(rec, t, "codepoint", full=equiv)
+        rec.evals += 1
+        rec.nt.add(hash(t))
+        rec.classes["codepoint-accepted" if want else ("codepoint-ascii-equivalent" if equiv else "codepoint")] += 1
+    rec.exhaustive.append("every code point 0..0x10FFFF at one BBAN position of one valid IBAN (characters with an ASCII "
+                          "equivalent under NFC/NFD/NFKC/NFKD/case mappings replace that very letter or digit)")
     return rec
 
 
@@ -273,7 +304,7 @@ def run(ctx):
                 "all-maximum [, letters-only, digits-only]); around each the complete single-replacement neighbourhood "
                 "(every position x every character of alphabet W), every length 0..40, every deletion/duplication/"
                 "adjacent swap, all 100 check-digit pairs; every two-character prefix over 74 characters in front of "
-                "conforming tails; Hypothesis near-valid k<=3 edit chains, arbitrary Unicode text, alnum text, "
+                "conforming tails; every code point 0..0x10FFFF at one BBAN position; Hypothesis near-valid k<=3 edit chains, arbitrary Unicode text, alnum text, "
                 "country-prefixed text. Non-trivial = accepted by the reference, or one edit from an accepted text, or "
                 "containing a non-ASCII character; distinct by text.")
     ctx.explanation = ("Oracle: independent ISO 13616 reference (own table merge of the JSON files on disk, own structure "
@@ -288,11 +319,15 @@ def run(ctx):
     import vlib.lib  # noqa: F401  (import the library before forking)
     ctx.pmap(shard_country, [(cc, ctx.seed, ctx.tier, alphabet) for cc in o.countries()])
     ctx.pmap(shard_prefix, [(c, ctx.seed) for c in prefix_chars()])
+    ctx.pmap(shard_codepoints, [(lo, hi, ctx.seed) for lo, hi in gens.codepoint_chunks(64)])
     ctx.hyp_parallel(text_strategy, hyp_body, ctx.pick(8000, 400000), name="C01-text")
     if not ctx.quick:
         from ..engines import fuzz
         fuzz.run_campaign(ctx.rec, "iban-c01", 120000, ctx.seed, ctx.prop)   # secondary engine: coverage-guided, oracle inside
+    from ._configs import stage as _config_stage
+    _config_stage(ctx, ['parse'])
     ctx.require_classes("insert-accepted", "insert-rejected", "ws-extreme-valid", "ws-extreme-invalid", "token-prefix", "token-suffix", "token-infix",
                         "argform-userstr", "argform-own-object",
                         "valid", "replace-nonascii", "replace-ascii", "replace-accepted", "pair", "length-trunc",
-                        "length-extend", "prefix-accepted", "prefix-rejected", "hyp-near", "hyp-text")
+                        "length-extend", "prefix-accepted", "prefix-rejected", "hyp-near", "hyp-text", "codepoint", "codepoint-ascii-equivalent",
+                        "codepoint-accepted", "valid-formatted-affix", "source-literals")
